@@ -32,6 +32,32 @@ for d in sorted(glob.glob(os.path.join(HERE, 'seeded', '*'))):
     how += ' — ' + note
   rows.append(f"| `seeded/{os.path.basename(d)}` | {m.get('property')} | {txt} | {caught} | {how} |")
 t2 = '\n'.join(rows)
+# per-round summary (rounds of three changes per property: k = 1-3, 4-6, 7-9, ...)
+import collections
+st = collections.defaultdict(collections.Counter)
+for d in sorted(glob.glob(os.path.join(HERE, 'seeded', 'C*'))):
+  mp, rp = os.path.join(d, 'meta.json'), os.path.join(d, 'result.json')
+  if not os.path.exists(mp):
+    continue
+  m = json.load(open(mp)); r = json.load(open(rp)) if os.path.exists(rp) else {}
+  rnd = (int(os.path.basename(d).split('-')[1]) - 1) // 3 + 1
+  n = (m.get('check_note') or '').lower()
+  st[rnd]['total'] += 1
+  if m.get('caught_by_other_property'):
+    st[rnd]['other'] += 1
+  elif 'missed' in n:
+    st[rnd]['missed_first'] += 1
+  elif 'no-failing-input' in n:
+    st[rnd]['nfif_first'] += 1
+  else:
+    st[rnd]['first'] += 1
+  if r.get('caught') or m.get('caught_by_other_property'):
+    st[rnd]['now'] += 1
+rows = ['| round | changes | caught by the check as it stood (concrete replay) | first only as no-failing-input-found | missed at first, caught after strengthening | belongs to / caught by another property\'s check | caught now |', '|---|---|---|---|---|---|---|']
+for rnd in sorted(st):
+  c = st[rnd]
+  rows.append(f"| {rnd} | {c['total']} | {c['first']} | {c['nfif_first']} | {c['missed_first']} | {c['other']} | {c['now']} |")
+t3 = '\n'.join(rows)
 p = os.path.join(HERE, 'DESIGN.md')
 s = open(p).read()
 def put(s, tag, body):
@@ -41,5 +67,6 @@ def put(s, tag, body):
   return re.sub(re.escape(a) + r'.*?' + re.escape(b), lambda m: a + '\n' + body + '\n' + b, s, flags=re.S)
 s = put(s, 'FINDINGS', t1)
 s = put(s, 'SEEDED', t2)
+s = put(s, 'SEEDED-SUMMARY', t3)
 open(p, 'w').write(s)
 print('findings', len(kf), 'seeded', len(glob.glob(os.path.join(HERE, 'seeded', '*'))))
